@@ -48,6 +48,7 @@ type HonestRelay struct {
 	log          []string
 	protoErrs    []string
 	staleDropped int
+	inReq        bool // a client request is being handled (the client's writer is inside Send)
 
 	// fault is called with the model lock held before crossing k is applied.
 	fault func(h *HonestRelay, k int, desc string)
@@ -136,6 +137,8 @@ func (h *HonestRelay) onClosed(s *CStream) {
 func (h *HonestRelay) onReq(s *CStream, rec ReqRec, req *signaling_rpc.SessionRequest) error {
 	h.hmu.Lock()
 	defer h.hmu.Unlock()
+	h.inReq = true
+	defer func() { h.inReq = false }()
 	if rec.Kind == "init" {
 		if rec.SSeq != 0 {
 			h.protoErrs = append(h.protoErrs, "init with session_seqno != 0")
@@ -274,6 +277,23 @@ func (h *HonestRelay) KillStreamL() {
 		h.resetL()
 	}
 }
+
+// EndStreamL ends X's stream in the given shape (error, clean EOF, half-close,
+// context cancellation ...); the relay regards X as detached from then on. X is
+// expected to retry.
+func (h *HonestRelay) EndStreamL(sh EndShape) {
+	h.logf("fault: X's stream ends (%s)", sh.Name)
+	if h.cur != nil {
+		h.cur.End(sh)
+		h.cur = nil
+		h.epoch++
+		h.resetL()
+	}
+}
+
+// InRequestL reports (model lock held, e.g. inside the fault hook) that the
+// current crossing happens inside a write of the client.
+func (h *HonestRelay) InRequestL() bool { return h.inReq }
 
 // PartnerQueueL is the number of partner messages not yet acked by X (lock held).
 func (h *HonestRelay) PartnerQueueL() int { return len(h.pOut) }
